@@ -60,7 +60,18 @@ def run_property(modname: str, tier: str, seed: int, replay: str | None = None) 
         cases = []
     elif replay:
         desc = json.load(open(replay))
-        cases = [mod.rebuild(desc.get("case", desc))]
+        try:
+            cases = [mod.rebuild(desc.get("case", desc))]
+        except NotImplementedError:
+            # no direct rebuild: regenerate the recorded run and pick the recorded case out of it
+            rseed, rtier = int(desc.get("seed", seed)), desc.get("tier", tier)
+            rrng = random.Random(rseed * 1000003 + sum(map(ord, prop)))
+            want = json.dumps(desc.get("case"), sort_keys=True, default=str)
+            cases = [c for c in mod.generate(rrng, rtier)
+                     if json.dumps(c.desc, sort_keys=True, default=str) == want][:1]
+            if not cases:
+                print(f"replay: recorded case not reproduced by seed {rseed}/{rtier}; running the whole recorded run")
+                cases = list(mod.generate(random.Random(rseed * 1000003 + sum(map(ord, prop))), rtier))
     else:
         cases = _corpus(mod) + list(mod.generate(rng, tier))
     prelude = getattr(mod, "PRELUDE", "")
